@@ -756,6 +756,8 @@ def bounded(opts):
 # (the C18 unit on the reader constructors, run here as well: a lost `degrees=` converts radian input a second time)
 def _register_shared():
     from . import C18 as _C18
+    # sequential creation: every chunk of the reader is split and handed to the writer exactly once, progress display on or off
+    unit(P, "write_patches_unthreaded", fuc=["yaw.catalog.catalog:write_patches_unthreaded"])(_C09.u_unthreaded)
     unit(P, "Reader.__init__", fuc=["yaw.catalog.readers:DataReader.__init__", "yaw.catalog.readers:DataFrameReader.__init__", "yaw.catalog.readers:FitsReader.__init__",
                                     "yaw.catalog.readers:HDFReader.__init__", "yaw.catalog.readers:ParquetReader.__init__"],
          cases=[dict(cls=c, given=True, degrees=d, opt=o) for c in ("DataFrameReader", "FitsReader", "HDFReader", "ParquetReader") for d in (False, True) for o in (False, True)])(_C18.u_reader_init)
